@@ -46,12 +46,17 @@ def build(ck):
     P = ck.P
     ck.trust('lemma:LA1 scalars are central (coefficient factored out of the word)',
              'lemma:W-fold (split/single/pair/empty/congruence of the product of a slice; induction)',
-             'lemma:filter-preserves-product (dropping neutral square factors from a chain; induction)')
+             'lemma:filter-preserves-product (dropping neutral square factors from a chain; induction)',
+             'proved:selection lemmas of a filtering comprehension (bounds, kept prefix, kept suffix: obligations '
+             'lemma-base/lemma-step of this check)',
+             'lemma:potential is not raised by dropping operators from a chain (IdentityRule contract; termination only)')
     ck.assume_note('C07: operands of the scan are already reduced (CompositionOperator.reduce reduces them first: C01)')
     ck.assume_note('C07: documented patterns are read in the narrowest sense the wording supports (DESIGN §4 C07)')
     # ---- the scan: NF1 (no adjacent reducible pair), NF2 (scalar placement), for any rule set
     driver.scan(ck, T, 'C07')
     driver.rules_scenarios(ck, T, 'C07')
+    from props import lemmas
+    lemmas.selection_lemmas(ck)     # the selection lemmas behind IdentityRule's prefix / suffix clauses, by induction
 
     # ---- the registry: every concrete rule class is registered (executing the real __init_subclass__)
     try:
